@@ -200,9 +200,7 @@ def mk_delim(idx, ch, n, op, cl):
     d.open = op
     d.close = cl
     # attributes a repaired Delimiter may carry: set by __init__ from (start, end)
-    for attr in ('origin', 'orig_number', 'original_number', 'length'):
-        if attr in ct.Delimiter.__init__.__code__.co_names:
-            setattr(d, attr, n)
+    d.orig_number = n          # length of the run as written (set by Delimiter.__init__ from start/end)
     return d
 
 
@@ -227,7 +225,8 @@ def _stack_parts(k):
     return out
 
 
-@lemma('E-stack', 'C06', quick=_stack_parts(2) + _stack_parts(3), thorough=_stack_parts(2) + _stack_parts(3) + [dict(p, M=6, timeout=3000) for p in _stack_parts(4)],
+@lemma('E-stack', 'C06', quick=_stack_parts(2) + [dict(p, M=4) for p in _stack_parts(3)],
+       thorough=_stack_parts(2) + [dict(p, M=7, timeout=5000) for p in _stack_parts(3)] + [dict(p, M=4, timeout=5000) for p in _stack_parts(4)],
        timeout=900, per_path=60,
        stubs=['Delimiter objects built directly (RunStr for .type, positions 100*i)', 'source string -> AnyStr (never influences control flow)'],
        covers=['core_tokens.py:process_emphasis', 'core_tokens.py:matching_opener', 'core_tokens.py:next_closer',
@@ -320,11 +319,11 @@ def ref_matches_alph(s):
     return E.process(out)
 
 
-def _str_parts(N, cells=2):
-    out = [{'k': k} for k in range(1, min(N, 4))]
+def _str_parts(N):
+    out = [{'k': k} for k in range(1, min(N, 3) + 1)]
     for k in range(4, N + 1):
         for a in ALPH:
-            if cells == 1 or k < 6:
+            if k == 4 and a != '*':
                 out.append({'k': k, 'c1': a})
             else:
                 for b in ALPH:
@@ -332,7 +331,7 @@ def _str_parts(N, cells=2):
     return out
 
 
-@lemma('E-str', 'C06', quick=_str_parts(5), thorough=[dict(p, timeout=3000) for p in _str_parts(7)], timeout=900, per_path=60,
+@lemma('E-str', 'C06', quick=_str_parts(4), thorough=[dict(p, timeout=5000) for p in _str_parts(6)], timeout=900, per_path=60,
        covers=['core_tokens.py:find_core_tokens', 'core_tokens.py:process_emphasis', 'core_tokens.py:Delimiter.__init__',
                'core_tokens.py:matching_opener', 'core_tokens.py:Delimiter.remove', 'core_tokens.py:Delimiter.closed_by'],
        note='every string over {a, space, *, _, .} of length k: same (start, end, kind) matches as the reference; no exception')
